@@ -147,6 +147,11 @@ def collect_locals(fn):
     return ids - statics
 
 
+def shimmed_names():
+    hdr = os.path.join(os.path.dirname(os.path.dirname(os.path.abspath(__file__))), 'rt', 'verif_atomic_shim.h')
+    return set(re.findall(r'^#define\s+(\w+)\(', open(hdr).read(), re.M))
+
+
 def weave_function(fn, path, src, edits, counter, census, loops=None):
     body = [c for c in fn.get('inner', []) if c.get('kind') == 'CompoundStmt']
     if not body:
@@ -157,6 +162,12 @@ def weave_function(fn, path, src, edits, counter, census, loops=None):
     if fb is None or fe is None:
         raise WeaveError('body of %s is not in %s' % (fn['name'], path))
     locals_ = collect_locals(fn)
+    # every atomic operation in the body must be one the shim puts an interference point in front of
+    body_txt = re.sub(r'/\*.*?\*/|//[^\n]*', '', src[fb:fe], flags=re.S)
+    shim = shimmed_names()
+    for m in re.finditer(r'\b(__sync_\w+|__atomic_\w+|__c11_atomic_\w+|atomic_\w+)\s*\(', body_txt):
+        if m.group(1) not in shim:
+            raise WeaveError('%s: atomic operation %s has no interference shim (rt/verif_atomic_shim.h)' % (fn['name'], m.group(1)))
     is_void = fn['type']['qualType'].startswith('void (')
     ret_t = fn['type']['qualType'].split(' (')[0].strip()
     if '(' in ret_t or '[' in ret_t:
@@ -174,7 +185,7 @@ def weave_function(fn, path, src, edits, counter, census, loops=None):
             return None
         return b, en
 
-    def wrap_access(e, depth):
+    def wrap_access(e, depth, rmw_stmt=None):
         if is_local_lvalue(e, locals_):
             return
         if e.get('kind') == 'DeclRefExpr' and e.get('referencedDecl', {}).get('kind') in ('FunctionDecl', 'EnumConstantDecl'):
@@ -193,6 +204,26 @@ def weave_function(fn, path, src, edits, counter, census, loops=None):
         n = counter[0]
         counter[0] += 1
         stats['accesses'] += 1
+        if rmw_stmt is not None:
+            # non-atomic read-modify-write of shared memory: a second interference point between the read and the write.
+            # The operation runs on a shadow copy; verif_rmw_commit (inserted after the statement) writes it back.
+            qt = e.get('type', {}).get('qualType', '')
+            base_t = ''
+            if e.get('kind') == 'MemberExpr' and e.get('inner'):
+                base_t = e['inner'][0].get('type', {}).get('qualType', '')
+            if '_Atomic' not in qt and 'fiber_manager_t' not in base_t and 'struct fiber_manager' not in base_t:
+                if rmw_stmt.get('_parent') != 'CompoundStmt':
+                    raise WeaveError('%s: non-atomic read-modify-write of shared memory is not a statement of its own' % name)
+                se = file_off(rmw_stmt['range']['end'], path, end=True)
+                m = re.match(r'\s*;', src[se:]) if se is not None else None
+                if not m:
+                    raise WeaveError('%s: cannot find the end of a read-modify-write statement' % name)
+                counter[0] += 1
+                stats['nonatomic_rmw'] = stats.get('nonatomic_rmw', 0) + 1
+                edits.append((r[0], 0, depth, PRE + '(*VERIF_RMW(%d, &(' % n + POST))
+                edits.append((r[1], 1, -depth, PRE + ')))' + POST))
+                edits.append((se + m.end(), 1, 20000, PRE + ' verif_rmw_commit(%d);' % (n + 1) + POST))
+                return
         edits.append((r[0], 0, depth, PRE + '(*VERIF_PTR(%d, &(' % n + POST))
         edits.append((r[1], 1, -depth, PRE + ')))' + POST))
 
@@ -203,9 +234,9 @@ def weave_function(fn, path, src, edits, counter, census, loops=None):
             wrap_access(inner[0], depth)
         elif k in ('BinaryOperator', 'CompoundAssignOperator') and n.get('opcode', '').endswith('=') \
                 and n.get('opcode') not in ('==', '!=', '<=', '>='):
-            wrap_access(inner[0], depth)
+            wrap_access(inner[0], depth, n if k == 'CompoundAssignOperator' else None)
         elif k == 'UnaryOperator' and n.get('opcode') in ('++', '--'):
-            wrap_access(inner[0], depth)
+            wrap_access(inner[0], depth, n)
         elif k == 'CallExpr':
             callee = inner[0]
             while callee.get('kind') in ('ImplicitCastExpr', 'ParenExpr'):
@@ -281,6 +312,8 @@ def weave_function(fn, path, src, edits, counter, census, loops=None):
         elif k == 'GCCAsmStmt':
             raise WeaveError('%s: inline asm in a woven function' % name)
         for c in inner:
+            if isinstance(c, dict):
+                c['_parent'] = k
             rec(c, depth + 1)
 
     rec(body, 0)
@@ -347,7 +380,7 @@ def weave_file(path, fns, cflags, parse_file=None, first_site=0, loops=None):
     if unweave(woven) != src:
         raise WeaveError('unweave check failed for %s' % path)
     nacc = sum(c['accesses'] for c in census.values())
-    if woven.count('(*VERIF_PTR(') != nacc:
+    if woven.count('(*VERIF_PTR(') + woven.count('(*VERIF_RMW(') != nacc:
         raise WeaveError('site census mismatch in %s' % path)
     return woven, census, counter[0]
 
